@@ -348,11 +348,16 @@ def replay(path):
             rpath = os.path.join(d, "ref.wasm")
             open(rpath, "wb").write(ps.make_module([tuple(k) for k in r["ref_keys"]]))
             opts[opts.index("-r") + 1] = rpath
-        free = ps.run_w2c2(w2c2, mpath, os.path.join(d, "free"), opts)
-        main, impl = observed_plan(free["files"])
-        allf = sorted(main + [x for v in impl.values() for x in v])
+        bad = False
+        for rep in range(5):                      # free runs are timing dependent: repeat
+            free = ps.run_w2c2(w2c2, mpath, os.path.join(d, f"free{rep}"), opts)
+            if free["rc"] == "timeout":
+                print(f"replay w2c2 {' '.join(opts)}: {free['stderr']}")
+                return 1
+            main, impl = observed_plan(free["files"])
+            allf = sorted(main + [x for v in impl.values() for x in v])
+            bad = bad or allf != list(range(len(keys)))
         print(f"replay w2c2 {' '.join(opts)}: functions defined {allf} (expected 0..{len(keys) - 1})")
-        bad = allf != list(range(len(keys)))
         if "SCHED_SEED" in r:
             shim = ps.build_shim(d)
             s = ps.run_w2c2(w2c2, mpath, os.path.join(d, "sched"), opts, shim=shim, seed=r["SCHED_SEED"],
